@@ -212,6 +212,10 @@ def run_job(job, workroot, keep=False):
         cb += ['--unwind', str(job.unwind), '--unwinding-assertions']
     for u in job.unwindset:
         cb += ['--unwindset', u]
+        # dfcc renames the function under contract: its loops are <fn>_wrapped_for_contract_checking.<n>
+        fn = u.rsplit(':', 1)[0].rsplit('.', 1)[0]
+        if fn in job.enforce:
+            cb += ['--unwindset', u.replace(fn, fn + '_wrapped_for_contract_checking', 1)]
     if job.unwindset and job.unwind is None:
         cb += ['--unwinding-assertions']
     if job.object_bits:
